@@ -1,6 +1,7 @@
 use crate::analysis::serde_parser::SerdeParser;
 use crate::analysis::type_resolver::TypeResolver;
 use crate::models::{CommandInfo, ParameterInfo};
+use serde_rename_rule::RenameRule;
 use std::path::Path;
 use syn::ext::IdentExt;
 use syn::{File as SynFile, FnArg, ItemFn, PatType, ReturnType, Type};
@@ -51,6 +52,33 @@ impl CommandParser {
         })
     }
 
+    /// The argument case requested through the command macro itself:
+    /// `#[tauri::command(rename_all = "snake_case")]` makes Tauri read snake_case keys
+    fn command_macro_rename_all(func: &ItemFn) -> Option<RenameRule> {
+        let mut rule = None;
+        for attr in &func.attrs {
+            let is_command = attr.path().segments.len() == 2
+                && attr.path().segments[0].ident == "tauri"
+                && attr.path().segments[1].ident == "command"
+                || attr.path().is_ident("command");
+            if !is_command || !matches!(attr.meta, syn::Meta::List(_)) {
+                continue;
+            }
+            let _ = attr.parse_nested_meta(|meta| {
+                if meta.path.is_ident("rename_all") {
+                    let lit: syn::LitStr = meta.value()?.parse()?;
+                    if let Ok(r) = RenameRule::from_rename_all_str(&lit.value()) {
+                        rule = Some(r);
+                    }
+                } else if meta.input.peek(syn::Token![=]) {
+                    let _: syn::Expr = meta.value()?.parse()?;
+                }
+                Ok(())
+            });
+        }
+        rule
+    }
+
     /// Extract command information from a function
     fn extract_command_info(
         &self,
@@ -69,11 +97,13 @@ impl CommandParser {
         // Get line number from the function's span
         let line_number = func.sig.ident.span().start().line;
 
-        // Parse serde rename_all attribute from function attributes
+        // Parse serde rename_all attribute from function attributes; Tauri's own spelling is an
+        // argument of the command macro: #[tauri::command(rename_all = "snake_case")]
         let serde_rename_all = self
             .serde_parser
             .parse_struct_serde_attrs(&func.attrs)
-            .rename_all;
+            .rename_all
+            .or_else(|| Self::command_macro_rename_all(func));
 
         Some(CommandInfo {
             name,
